@@ -143,6 +143,9 @@ func runStepSweep(c *Ctx, prop string) {
 			sc.PreHALT = k%16 == 9
 			sc.NoHandlers = k%4 == 3
 			sc.PendingRefused = k%16 == 6
+			if k%16 == 11 {
+				sc.RaiseDuring = 1 + (k>>4)%3
+			}
 			rig.Direct = 0
 			if k%8 == 5 {
 				rig.Direct = 1 + (k/8)%2
@@ -387,7 +390,7 @@ func runStepSweep(c *Ctx, prop string) {
 	}
 	switch prop {
 	case "C01":
-		c.R.Set("rule", "every implemented encoding (930, all seven decode tables) x n boundary-biased pre-states (F and displacement cycled through all 256 values, PC straddling FFFF in ~1/8, pointers at/near 0000/FFFF/PC/SP), pseudo-random memory and device bytes, the halted indication already true in 1/16 of cases, no RETN/RETI handler registered in 1/4 of cases, a refused maskable request pending (IFF1 clear) in 1/16 of cases, 1/8 of cases also executed on z80.DumbMemory / a fully populated z80.MapMemory handed to the CPU directly (outcome must not depend on the memory's type); one emulator Step vs one reference-model Step; a pass where the upper part of the address space keeps no write - reading 0 (a z80.DumbMemory of length 1, 2, 20h, 100h, 4000h, 8000h, FFFEh, FFFFh, also handed over directly) or holding bytes (ROM from 2000h/8000h/C000h) - with PC and pointers pulled to the border; plus chains of 48 random implemented instructions executed by ONE CPU object on an instruction tape (post-state of a Step = pre-state of the next) to expose state leaking between consecutive operations (every ~6th Step continues on a by-value copy of the CPU struct while the old struct is scribbled over); compared: all registers, F under the tolerance mask, I, IFF1/2, IM, HALT, full memory image, bytes sent to ports. A case is non-trivial when the Step changed a register other than PC/R, wrote memory, or touched a port or data byte; distinct = distinct (encoding, case index, pre-state, device seed) hashes among the non-trivial ones (sampled 1/7 beyond the first 4096 per encoding, exact set capped at 6M: a lower bound)")
+		c.R.Set("rule", "every implemented encoding (930, all seven decode tables) x n boundary-biased pre-states (F and displacement cycled through all 256 values, PC straddling FFFF in ~1/8, pointers at/near 0000/FFFF/PC/SP), pseudo-random memory and device bytes, the halted indication already true in 1/16 of cases, no RETN/RETI handler registered in 1/4 of cases, a refused maskable request pending (IFF1 clear) in 1/16 of cases, a request raised by a memory/port callback DURING the instruction in 1/16 of cases (the Step is the instruction's, unchanged; the request stays pending), 1/8 of cases also executed on z80.DumbMemory / a fully populated z80.MapMemory handed to the CPU directly (outcome must not depend on the memory's type); one emulator Step vs one reference-model Step; a pass where the upper part of the address space keeps no write - reading 0 (a z80.DumbMemory of length 1, 2, 20h, 100h, 4000h, 8000h, FFFEh, FFFFh, also handed over directly) or holding bytes (ROM from 2000h/8000h/C000h) - with PC and pointers pulled to the border; plus chains of 48 random implemented instructions executed by ONE CPU object on an instruction tape (post-state of a Step = pre-state of the next) to expose state leaking between consecutive operations (every ~6th Step continues on a by-value copy of the CPU struct while the old struct is scribbled over); compared: all registers, F under the tolerance mask, I, IFF1/2, IM, HALT, full memory image, bytes sent to ports. A case is non-trivial when the Step changed a register other than PC/R, wrote memory, or touched a port or data byte; distinct = distinct (encoding, case index, pre-state, device seed) hashes among the non-trivial ones (sampled 1/7 beyond the first 4096 per encoding, exact set capped at 6M: a lower bound)")
 	case "C05":
 		c.R.Set("rule", "same workload as C01 (incl. the pass with no I/O device attached: memory traffic must be unchanged); compared per Step: multiset of memory reads (addr,value), multiset of memory writes (addr,value) and the ordered port log (direction, port, value) of the emulator against the reference model's bus log; non-trivial/distinct as in C01")
 	}
@@ -471,6 +474,9 @@ func replayStep(c *Ctx, prop string) {
 	sc.PreHALT, _ = w["pre_halt"].(bool)
 	sc.NoHandlers, _ = w["no_handlers"].(bool)
 	sc.PendingRefused, _ = w["pending_refused"].(bool)
+	if v, ok := w["raise_during"].(float64); ok {
+		sc.RaiseDuring = int(v)
+	}
 	if d, ok := w["direct"].(float64); ok {
 		rig.Direct = int(d)
 	}
